@@ -62,7 +62,13 @@ static std::string ktree(const expression_t& e)
         else if (t.is_record() || t.is_process()) os << " " << t.get_record_label(idx);
         else os << " #" << idx;
     }
-    for (size_t i = 0; i < e.get_size(); ++i) os << " " << ktree(e[i]);
+    for (size_t i = 0; i < e.get_size(); ++i) {
+        // the path types of a probability comparison are stored as the constants BOX / DIAMOND (expr_proba_compare): by name
+        if (k == PROBA_CMP && (i == 2 || i == 6) && e[i].get_kind() == CONSTANT && (e[i].get_value() == BOX || e[i].get_value() == DIAMOND))
+            os << " (CONSTANT path " << (e[i].get_value() == BOX ? "BOX" : "DIAMOND") << ")";
+        else
+            os << " " << ktree(e[i]);
+    }
     os << ")";
     return os.str();
 }
